@@ -13,6 +13,10 @@ transforms:
   flipcmp    `a == b` -> `b == a`, `a != b` -> `b != a`, `a < b` -> `b > a`, `a <= b` -> `b >= a` (and vice versa) where
              both operands are side-effect free (names, attributes, constants, subscripts of those)
   ifswap     `if c: A else: B` (both branches non-empty, no elif) -> `if not c: B else: A`
+  nestand    `if a and b: BODY` (no else) -> nested ifs
+  retlocal   `return EXPR` -> `_mm_ret = EXPR; return _mm_ret`
+  augassign  `x op= e` -> `x = x op e`
+  isnot      `a is not b` -> `not a is b` (likewise not in, !=)
 """
 import ast
 import os
@@ -51,6 +55,65 @@ class IfSwap(ast.NodeTransformer):
         if n.orelse and not (len(n.orelse) == 1 and isinstance(n.orelse[0], ast.If)):
             test = n.test.operand if isinstance(n.test, ast.UnaryOp) and isinstance(n.test.op, ast.Not) else ast.UnaryOp(op=ast.Not(), operand=n.test)
             return ast.copy_location(ast.If(test=test, body=n.orelse, orelse=n.body), n)
+        return n
+
+
+class NestAnd(ast.NodeTransformer):
+    """`if a and b: BODY` (no else) -> `if a:` nested over `if b: BODY`"""
+    def visit_If(self, n):
+        self.generic_visit(n)
+        if not n.orelse and isinstance(n.test, ast.BoolOp) and isinstance(n.test.op, ast.And) and len(n.test.values) >= 2:
+            inner = n.body
+            for v in reversed(n.test.values):
+                inner = [ast.copy_location(ast.If(test=v, body=inner, orelse=[]), n)]
+            return inner[0]
+        return n
+
+
+class RetLocal(ast.NodeTransformer):
+    """`return EXPR` -> `_mm_ret = EXPR; return _mm_ret` (not in generators / lambdas; EXPR not a bare name or constant)"""
+    def _block(self, stmts):
+        out = []
+        for s in stmts:
+            if isinstance(s, ast.Return) and s.value is not None and not isinstance(s.value, (ast.Name, ast.Constant)):
+                a = ast.copy_location(ast.Assign(targets=[ast.Name(id="_mm_ret", ctx=ast.Store())], value=s.value), s)
+                r = ast.copy_location(ast.Return(value=ast.Name(id="_mm_ret", ctx=ast.Load())), s)
+                out += [a, r]
+            else:
+                out.append(s)
+        return out
+
+    def generic_visit(self, n):
+        super().generic_visit(n)
+        for fld in ("body", "orelse", "finalbody"):
+            lst = getattr(n, fld, None)
+            if isinstance(lst, list) and lst and isinstance(lst[0], ast.stmt):
+                setattr(n, fld, self._block(lst))
+        return n
+
+
+class AugToAssign(ast.NodeTransformer):
+    """`x op= e` -> `x = x op e` for side-effect free targets (names, attribute chains)"""
+    def visit_AugAssign(self, n):
+        self.generic_visit(n)
+        if isinstance(n.target, ast.Name) or (isinstance(n.target, ast.Attribute) and pure(n.target)):
+            import copy
+            load = copy.deepcopy(n.target)
+            for x in ast.walk(load):
+                if hasattr(x, "ctx"):
+                    x.ctx = ast.Load()
+            return ast.copy_location(ast.Assign(targets=[n.target], value=ast.BinOp(left=load, op=n.op, right=n.value)), n)
+        return n
+
+
+class IsNot(ast.NodeTransformer):
+    """`a is not b` -> `not a is b`, `a not in b` -> `not a in b`, `a != b` -> `not a == b`"""
+    M = {ast.IsNot: ast.Is, ast.NotIn: ast.In, ast.NotEq: ast.Eq}
+
+    def visit_Compare(self, n):
+        self.generic_visit(n)
+        if len(n.ops) == 1 and type(n.ops[0]) in self.M:
+            return ast.copy_location(ast.UnaryOp(op=ast.Not(), operand=ast.Compare(left=n.left, ops=[self.M[type(n.ops[0])]()], comparators=n.comparators)), n)
         return n
 
 
@@ -113,7 +176,7 @@ def transform(kind: str, src: str, filename: str) -> str:
     if kind == "rename":
         return rename_locals(src, filename)
     tree = ast.parse(src)
-    tree = {"flipcmp": FlipCmp, "ifswap": IfSwap}[kind]().visit(tree)
+    tree = {"flipcmp": FlipCmp, "ifswap": IfSwap, "nestand": NestAnd, "retlocal": RetLocal, "augassign": AugToAssign, "isnot": IsNot}[kind]().visit(tree)
     ast.fix_missing_locations(tree)
     return ast.unparse(tree)
 
